@@ -350,3 +350,245 @@ Definition handle (fuel : nat) (d : dns) (bmq bmr : list N) (c : cache) (q : que
       (r, l, match r with Ok ans => cache_insert c q (src_code s) ans | Err _ => c end)
     end
   end.
+
+(* ================================================================================================ *)
+(* component/dns/request_rule_split.go, routing_program.go; component/daedns/router.go, client.go      *)
+(* ================================================================================================ *)
+Definition E_MIXED : N := 30.        (* cannot mix ... in one rule *)
+Definition E_KEY : N := 31.          (* unsupported key *)
+Definition E_INT_TARGET : N := 32.   (* dns upstream ... not found for sub/node/subnode rule *)
+Definition E_NOT_CONFIGURED : N := 33.
+Definition E_NAMED : N := 34.        (* dns upstream ... not found (lookup time) *)
+
+(* classifyRequestRule.  cat: internalCategory (Some = hasInternal) *)
+Definition is_qfunc (c : cond) : bool := match c_body c with BQName _ | BQType _ => true | _ => false end.
+
+Fixpoint classify_go (fs : list rcond) (cat : option ikind) (has_dns has_other : bool) : res (option ikind) :=
+  match fs with
+  | [] => Ok cat
+  | RDns c :: rest =>
+    if is_qfunc c then
+      match cat with Some _ => Err E_MIXED | None => classify_go rest cat true has_other end
+    else
+      match cat with Some _ => Err E_MIXED | None => classify_go rest cat has_dns true end
+  | RInt k _ :: rest =>
+    if has_dns then Err E_MIXED
+    else if has_other then Err E_MIXED
+    else match cat with
+         | None => classify_go rest (Some k) has_dns has_other
+         | Some k0 => if ikind_eqb k0 k then classify_go rest cat has_dns has_other else Err E_MIXED
+         end
+  end.
+Definition classify (r : rrule) : res (option ikind) :=
+  match rr_conds r with [] => Ok None | fs => classify_go fs None false false end.
+
+Record split := { sp_dns : list rrule; sp_sub : list rrule; sp_node : list rrule; sp_subnode : list rrule }.
+
+(* SplitRequestRules *)
+Fixpoint split_go (rs : list rrule) (acc : split) : res split :=
+  match rs with
+  | [] => Ok acc
+  | r :: rest =>
+    match classify r with
+    | Err e => Err e
+    | Ok None => split_go rest {| sp_dns := sp_dns acc ++ [r]; sp_sub := sp_sub acc; sp_node := sp_node acc; sp_subnode := sp_subnode acc |}
+    | Ok (Some ISub) => split_go rest {| sp_dns := sp_dns acc; sp_sub := sp_sub acc ++ [r]; sp_node := sp_node acc; sp_subnode := sp_subnode acc |}
+    | Ok (Some INode) => split_go rest {| sp_dns := sp_dns acc; sp_sub := sp_sub acc; sp_node := sp_node acc ++ [r]; sp_subnode := sp_subnode acc |}
+    | Ok (Some ISubNode) => split_go rest {| sp_dns := sp_dns acc; sp_sub := sp_sub acc; sp_node := sp_node acc; sp_subnode := sp_subnode acc ++ [r] |}
+    end
+  end.
+Definition split_request_rules (rs : list rrule) : res split :=
+  split_go rs {| sp_dns := []; sp_sub := []; sp_node := []; sp_subnode := [] |}.
+
+(* dns.New on the written section: NewNormalizedRequestRoutingProgram, then the builders on program.Rules only *)
+Definition cfg_of (rc : rconfig) (sp : split) : config :=
+  {| cf_upstreams := rc_upstreams rc;
+     cf_request := {| rt_rules := map to_rule (sp_dns sp); rt_fallback := rc_fallback rc |};
+     cf_response := rc_response rc |}.
+Definition dns_new_raw (rc : rconfig) : res dns :=
+  if DnsRequestOutboundIndex_UserDefinedMax <? N.of_nat (List.length (rc_upstreams rc)) then Err E_TOO_MANY
+  else match split_request_rules (rc_request rc) with
+       | Err e => Err e
+       | Ok sp => dns_new (cfg_of rc sp)
+       end.
+
+(* ---------- daedns.Router ---------- *)
+Definition skey_code (k : skey) : N :=
+  match k with KDefault => 0 | KTag => 1 | KTagRegex => 2 | KRegex => 3 | KLinkKeyword => 4 | KLinkRegex => 5 | KName => 6
+             | KNameKeyword => 7 | KNameRegex => 8 | KSubtag => 9 | KSubtagRegex => 10 | KOther => 11 end.
+Definition skey_eqb (a b : skey) : bool := skey_code a =? skey_code b.
+
+(* groupParamValuesByKey (router.go) *)
+Fixpoint sadd_to_group (key : skey) (v : string) (gs : list (skey * list string)) : list (skey * list string) :=
+  match gs with
+  | [] => [(key, [v])]
+  | (k, vs) :: rest => if skey_eqb k key then (k, vs ++ [v]) :: rest else (k, vs) :: sadd_to_group key v rest
+  end.
+Definition sgroup_by_key (params : list (skey * string)) : list (skey * list string) :=
+  fold_left (fun gs kv => sadd_to_group (fst kv) (snd kv) gs) params [].
+
+(* compileSubscriptionCondition / compileNodeCondition / compileSubNodeCondition: one condition per key group *)
+Inductive ccond :=
+| CcTag (vs : list string)            (* slices.Contains(values, tag) *)
+| CcName (vs : list string)
+| CcRegex (field : N) (vs : list string)
+| CcNameKeyword (vs : list string)
+| CcLinkKeyword (vs : list string).
+
+Definition compile_node_condition (key : skey) (vs : list string) : res ccond :=
+  match key with
+  | KDefault | KName => Ok (CcName vs)
+  | KNameKeyword => Ok (CcNameKeyword vs)
+  | KNameRegex => Ok (CcRegex 2 vs)
+  | KLinkKeyword => Ok (CcLinkKeyword vs)
+  | KLinkRegex => Ok (CcRegex 3 vs)
+  | _ => Err E_KEY
+  end.
+Definition compile_condition (k : ikind) (key : skey) (vs : list string) : res ccond :=
+  match k with
+  | ISub =>
+    match key with
+    | KDefault | KTag => Ok (CcTag vs)
+    | KTagRegex | KRegex => Ok (CcRegex 1 vs)
+    | KLinkKeyword => Ok (CcLinkKeyword vs)
+    | KLinkRegex => Ok (CcRegex 3 vs)
+    | _ => Err E_KEY
+    end
+  | INode => compile_node_condition key vs
+  | ISubNode =>
+    match key with
+    | KDefault | KSubtag => Ok (CcTag vs)
+    | KSubtagRegex | KRegex => Ok (CcRegex 1 vs)
+    | KName | KNameKeyword | KNameRegex | KLinkKeyword | KLinkRegex => compile_node_condition key vs
+    | _ => Err E_KEY
+    end
+  end.
+
+Definition ccond_eval (c : ccond) (m : meta) : bool :=
+  match c with
+  | CcTag vs => existsb (fun v => String.eqb v (m_subtag m)) vs
+  | CcName vs => existsb (fun v => String.eqb v (m_name m)) vs
+  | CcRegex f vs => existsb (fun v => hit m f v) vs
+  | CcNameKeyword vs => existsb (fun v => contains (m_name m) v) vs
+  | CcLinkKeyword vs => existsb (fun v => contains (m_link m) v) vs
+  end.
+
+Fixpoint compile_groups (k : ikind) (gs : list (skey * list string)) : res (list ccond) :=
+  match gs with
+  | [] => Ok []
+  | (key, vs) :: rest =>
+    match compile_condition k key vs with
+    | Err e => Err e
+    | Ok c => match compile_groups k rest with Err e => Err e | Ok cs => Ok (c :: cs) end
+    end
+  end.
+
+(* compile*Predicate: conditions (a constant one when there are no params), wrapNotPredicate, the subnode guard *)
+Record cpred := { cp_kind : ikind; cp_not : bool; cp_any : bool; cp_conds : list ccond }.
+Definition compile_predicate (k : ikind) (s : selector) : res cpred :=
+  match compile_groups k (sgroup_by_key (s_params s)) with
+  | Err e => Err e
+  | Ok cs => Ok {| cp_kind := k; cp_not := s_neg s; cp_any := match s_params s with [] => true | _ => false end; cp_conds := cs |}
+  end.
+Definition cpred_eval (p : cpred) (m : meta) : bool :=
+  let has_sub := negb (String.eqb (m_subtag m) "") in
+  let matched := (cp_any p && match cp_kind p with ISubNode => has_sub | _ => true end)
+                 || existsb (fun c => ccond_eval c m) (cp_conds p) in
+  let base := if cp_not p then negb matched else matched in
+  match cp_kind p with ISubNode => if has_sub then base else false | _ => base end.
+
+Record crule := { cr_preds : list cpred; cr_upstream : string }.
+
+Fixpoint compile_preds (k : ikind) (fs : list rcond) : res (list cpred) :=
+  match fs with
+  | [] => Ok []
+  | RDns _ :: _ => Err E_FUNC                       (* unexpected function in ... rule *)
+  | RInt k' s :: rest =>
+    if negb (ikind_eqb k k') then Err E_FUNC
+    else match compile_predicate k s with
+         | Err e => Err e
+         | Ok p => match compile_preds k rest with Err e => Err e | Ok ps => Ok (p :: ps) end
+         end
+  end.
+
+(* r.upstreams: map tag -> resolver *)
+Definition has_tag (ups : list string) (t : string) : bool := existsb (String.eqb t) ups.
+
+(* compileMatcher: nil for an empty rule list *)
+Fixpoint compile_rules (ups : list string) (k : ikind) (rs : list rrule) : res (list crule) :=
+  match rs with
+  | [] => Ok []
+  | r :: rest =>
+    if negb (has_tag ups (rr_target r)) then Err E_INT_TARGET
+    else match compile_preds k (rr_conds r) with
+         | Err e => Err e
+         | Ok ps => match compile_rules ups k rest with
+                    | Err e => Err e
+                    | Ok crs => Ok ({| cr_preds := ps; cr_upstream := rr_target r |} :: crs)
+                    end
+         end
+  end.
+
+Fixpoint cmatch (rules : list crule) (m : meta) : option string :=
+  match rules with
+  | [] => None
+  | r :: rest => if forallb (fun p => cpred_eval p m) (cr_preds r) then Some (cr_upstream r) else cmatch rest m
+  end.
+
+Record router := { ro_ups : list string; ro_req : builder; ro_sub : list crule; ro_node : list crule; ro_subnode : list crule }.
+
+(* NewWithOption: None = nil router (no request rule of any kind) *)
+Definition router_new (rc : rconfig) : res (option router) :=
+  match split_request_rules (rc_request rc) with
+  | Err e => Err e
+  | Ok sp =>
+    match sp_dns sp, sp_sub sp, sp_node sp, sp_subnode sp with
+    | [], [], [], [] => Ok None
+    | _, _, _, _ =>
+      match build_matcher Request (rc_upstreams rc) {| rt_rules := map to_rule (sp_dns sp); rt_fallback := rc_fallback rc |} with
+      | Err e => Err e
+      | Ok rq =>
+        match compile_rules (rc_upstreams rc) ISub (sp_sub sp) with
+        | Err e => Err e
+        | Ok s =>
+          match compile_rules (rc_upstreams rc) INode (sp_node sp) with
+          | Err e => Err e
+          | Ok n =>
+            match compile_rules (rc_upstreams rc) ISubNode (sp_subnode sp) with
+            | Err e => Err e
+            | Ok sn => Ok (Some {| ro_ups := rc_upstreams rc; ro_req := rq; ro_sub := s; ro_node := n; ro_subnode := sn |})
+            end
+          end
+        end
+      end
+    end
+  end.
+
+(* MatchSubscriptionUpstream / MatchNodeUpstream (and the selection inside Wrap*Dialer) *)
+Definition match_subscription_upstream (r : router) (m : meta) : option string := cmatch (ro_sub r) m.
+Definition match_node_upstream (r : router) (m : meta) : option string :=
+  match (if negb (String.eqb (m_subtag m) "") then cmatch (ro_subnode r) m else None) with
+  | Some u => Some u
+  | None => cmatch (ro_node r) m
+  end.
+
+(* Router.selectUpstream: the named upstream, else the request matcher on CanonicalName(host) *)
+Definition select_upstream (r : router) (name : string) (bm : list N) (q : question) : res plan :=
+  if negb (String.eqb name "") then
+    match name2id (ro_ups r) name with Some i => Ok (PlanUp i) | None => Err E_NAMED end
+  else
+    match match_loop Request (b_ipsets (ro_req r)) {| a_qtype := q_type q; a_ips := []; a_from := from_index SAsIs |} (Some bm)
+                     (b_rules (ro_req r)) 0 false false with
+    | Err e => Err e
+    | Ok up =>
+      if (up =? DnsRequestOutboundIndex_AsIs) || (up =? DnsRequestOutboundIndex_Reject) then Ok PlanBase
+      else if N.of_nat (List.length (ro_ups r)) <=? up then Err E_BAD_INDEX
+      else Ok (PlanUp up)
+    end.
+
+(* resolvingDialer.lookupIPAddr / lookupControlIPAddr: which resolver is asked first *)
+Definition dialer_plan (r : router) (named : option string) (control_host host : string) (bm : list N) (q : question) : res plan :=
+  let nm := match named with Some n => n | None => ""%string end in
+  if same_host host control_host then
+    if String.eqb nm "" then Ok PlanBootstrap else select_upstream r nm bm q
+  else select_upstream r nm bm q.
